@@ -173,8 +173,8 @@ func serSource(src *lql.Source, tagsText string, usesFn *bool) string {
 // pools contain blank twins (a value / name with an inner blank and the same text without it): "app 1"/"app1", "a bc"/"abc",
 // "a b"/"ab", "k 1"/"k1" — different sets that must never share a partition
 var tagKeys = []string{"a", "b", "name", "ip", "k1", "A", "k 1"}
-var tagVals = []string{"1", "2", "app1", "app2", "x", "", "abc", "ABC", "a/b", "10.0.0.1", "Z", "a b", "ab", "app 1", "a bc", "é", "x\"y", " c ", "a=b", "a,b"}
-var safeVals = []string{"1", "2", "app1", "app2", "x", "", "abc", "ABC", "a/b", "10.0.0.1", "Z", "a b", "ab", "app 1", "a bc", "a=b", "a,b", "x\"y\"z"}
+var tagVals = []string{"1", "2", "app1", "app2", "x", "", "abc", "ABC", "a/b", "app/1", "a/b/c", "10.0.0.1", "Z", "a b", "ab", "app 1", "a bc", "é", "x\"y", " c ", "a=b", "a,b"}
+var safeVals = []string{"1", "2", "app1", "app2", "x", "", "abc", "ABC", "a/b", "app/1", "a/b/c", "10.0.0.1", "Z", "a b", "ab", "app 1", "a bc", "a=b", "a,b", "x\"y\"z"}
 
 func genSet(r *vh.Rng, vals []string) map[string]string {
 	m := map[string]string{}
@@ -231,7 +231,7 @@ func spellSet(r *vh.Rng, m map[string]string) string {
 }
 
 var exprIdents = []string{"a", "b", "name", "ip", "k1", "A", "zz"}
-var exprVals = []string{"1", "2", "app1", "app*", "a?c", "[a-c]bc", "ABC", "abc", "x", `""`, `"a b"`, `"["`, `"a[", `, `"[b-a]"`, `"\\"`, `"a\\"`, "10.0.0.1", `"*"`, `"a/*"`, "Z", `'x"y'`}
+var exprVals = []string{"1", "2", "app1", "app*", "a*", `"a/*"`, `"*"`, `"a*c"`, `"*1"`, "a?c", "[a-c]bc", "ABC", "abc", "x", `""`, `"a b"`, `"["`, `"a[", `, `"[b-a]"`, `"\\"`, `"a\\"`, "10.0.0.1", `"*"`, `"a/*"`, "Z", `'x"y'`}
 var exprOps = []string{"=", "!=", "<", ">", "<=", ">=", "like", "LIKE", "contains", "prefix", "suffix", "Contains"}
 
 func genCond(r *vh.Rng) string {
